@@ -207,3 +207,162 @@ func VC07_Immediate() {
 	vf.Quiesce()
 	vf.Assert(vf.Live() == 0, "helper-goroutine-left-behind")
 }
+
+func vc07deque(capacity int) *Deque[vc07item] {
+	if capacity == 0 {
+		return NewUnlimitedDeque[vc07item]()
+	}
+	dq, err := NewDeque[vc07item](DequeOptions{Capacity: capacity})
+	vf.Assert(err == nil, "newdeque-rejected-valid-options")
+	return dq
+}
+
+// Deque consumers: nW waiters (front or back), nP pushers (front or back),
+// optionally a pre-filled element.
+func VC07_DequeWaitPop() {
+	dq := vc07deque(0)
+	pre := vf.Range("prefilled", 0, 1)
+	for i := 0; i < pre; i++ {
+		_ = dq.PushBack(vc07item{ID: 100 + i})
+	}
+	nW := vf.Range("waiters", 1, 2)
+	nP := vf.Range("pushes", 0, 2)
+	ctx := context.Background()
+	done := make([]bool, nW)
+	back := vf.Choice("wait-back", 2) == 1
+	front := vf.Choice("push-front", 2) == 1
+	for i := 0; i < nW; i++ {
+		i := i
+		vf.Go(func() {
+			var err error
+			if back {
+				_, err = dq.WaitBack(ctx)
+			} else {
+				_, err = dq.WaitFront(ctx)
+			}
+			vf.Assert(err == nil, "deque-wait-returned-error-on-open-deque")
+			done[i] = true
+		})
+	}
+	for j := 0; j < nP; j++ {
+		j := j
+		vf.Go(func() {
+			var err error
+			if front {
+				err = dq.PushFront(vc07item{ID: j + 1, V: vf.Int("item")})
+			} else {
+				err = dq.PushBack(vc07item{ID: j + 1, V: vf.Int("item")})
+			}
+			vf.Assert(err == nil, "push-failed-on-unlimited-deque")
+		})
+	}
+	vf.Quiesce()
+	vf.Reach("quiescent")
+	served := 0
+	for _, d := range done {
+		if d {
+			served++
+		}
+	}
+	want := nW
+	if pre+nP < want {
+		want = pre + nP
+	}
+	vf.Assert(served == want, "consumer-parked-while-deque-non-empty")
+	vf.Assert(dq.Len() == pre+nP-served, "deque-len-after-quiescence")
+}
+
+// Deque producers blocked on a full fixed-capacity deque, poppers free capacity.
+func VC07_DequeWaitPush() {
+	c := vf.Range("cap", 1, 2)
+	dq := vc07deque(c)
+	for i := 0; i < c; i++ {
+		vf.Assert(dq.PushBack(vc07item{ID: 100 + i}) == nil, "prefill")
+	}
+	nP := vf.Range("producers", 1, 2)
+	nR := vf.Range("poppers", 0, 2)
+	ctx := context.Background()
+	added := make([]bool, nP)
+	for i := 0; i < nP; i++ {
+		i := i
+		front := vf.Choice("push-front", 2) == 1
+		vf.Go(func() {
+			var err error
+			if front {
+				err = dq.WaitPushFront(ctx, vc07item{ID: i + 1})
+			} else {
+				err = dq.WaitPushBack(ctx, vc07item{ID: i + 1})
+			}
+			vf.Assert(err == nil, "waitpush-error-on-open-deque")
+			added[i] = true
+		})
+	}
+	popped := make([]bool, nR)
+	for i := 0; i < nR; i++ {
+		i := i
+		back := vf.Choice("pop-back", 2) == 1
+		vf.Go(func() {
+			if back {
+				_, popped[i] = dq.PopBack()
+			} else {
+				_, popped[i] = dq.PopFront()
+			}
+		})
+	}
+	vf.Quiesce()
+	vf.Reach("quiescent")
+	nAdded, nPopped := 0, 0
+	for _, a := range added {
+		if a {
+			nAdded++
+		}
+	}
+	for _, r := range popped {
+		if r {
+			nPopped++
+		}
+	}
+	l := dq.Len()
+	vf.Assert(l == c+nAdded-nPopped, "deque-len-after-quiescence")
+	vf.Assert(l <= c, "deque-len-exceeds-capacity")
+	vf.Assert(nAdded == nP || l == c, "producer-parked-while-capacity-free")
+}
+
+func VC07_DequeCloseCancel() {
+	kind := vf.Choice("blocked-op", 3)
+	byCancel := vf.Choice("by-cancel", 2) == 1
+	ctx, cancel := context.WithCancel(context.Background())
+	var dq *Deque[vc07item]
+	returned := false
+	var err error
+	switch kind {
+	case 0:
+		dq = vc07deque(0)
+		vf.Go(func() { _, err = dq.WaitFront(ctx); returned = true })
+	case 1:
+		dq = vc07deque(0)
+		vf.Go(func() { _, err = dq.WaitBack(ctx); returned = true })
+	case 2:
+		dq = vc07deque(1)
+		_ = dq.PushBack(vc07item{ID: 100})
+		vf.Go(func() { err = dq.WaitPushBack(ctx, vc07item{ID: 1}); returned = true })
+	}
+	if byCancel {
+		vf.Go(func() { cancel() })
+	} else {
+		vf.Go(func() { _ = dq.Close() })
+	}
+	vf.Quiesce()
+	vf.Reach("quiescent")
+	if byCancel {
+		vf.Assert(returned, "blocked-deque-operation-not-woken-by-cancellation")
+	} else {
+		vf.Assert(returned, "blocked-deque-operation-not-woken-by-close")
+	}
+	if returned {
+		vf.Assert(err != nil, "blocked-deque-operation-reported-success")
+	}
+	cancel()
+	vf.Quiesce()
+	vf.Assert(vf.Live() == 0, "helper-goroutine-left-behind")
+}
